@@ -11,7 +11,7 @@ Definition nm (s : string) : list byte := list_byte_of_string s.
 Definition is (name : list byte) (s : string) : bool := bytes_eqb name (nm s).
 
 Definition arg (args : list (list byte)) (i : nat) : list byte := nth i args [].
-Definition narg (args : list (list byte)) (i : nat) : N := be_dec (arg args i).
+Definition narg (args : list (list byte)) (i : nat) : N := be_dec_h (arg args i).
 
 Definition st_none : list byte := [x00].
 Definition st_ok : list byte := [x01].
